@@ -1,6 +1,6 @@
 From Coq Require Import QArith List String Bool.
 From FV Require Import Base.Ser Base.Res C14.Model.
-From FV Require C14.ModelPointPen.
+From FV Require C14.ModelPointPen C14.ModelDrop.
 Import ListNotations.
 Open Scope string_scope.
 Global Instance De_xf : De xf :=
@@ -31,6 +31,7 @@ Definition reg : registry := [
   ("area", run1 (fun l => Qred (area l)));
   ("reversedContour", run2 reversedContour);
   ("segment_to_point", run1 ModelPointPen.segment_to_point);
-  ("point_to_segment", run2 ModelPointPen.point_to_segment)
+  ("point_to_segment", run2 ModelPointPen.point_to_segment);
+  ("dropImplied", run3 ModelDrop.dropImplied)
 ].
 Definition fv_entry := dispatch reg.
